@@ -5,7 +5,7 @@
 #include "hx.h"
 #include "avtp/acf/custom/Vss.h"
 static uint64_t ux(const char* s) { return strtoull(s, 0, 16); }
-static void* exact(size_t n) { void* p = malloc(n ? n : 1); if (!p) abort(); return p; }
+static void* exact(size_t n) { void* p = malloc(n); if (!p) abort(); return p; }   /* malloc(0): a valid pointer to a zero-size block under ASan */
 static uint8_t* exact_copy(const char* hex, size_t* n) { *n = hx_hexlen(hex); uint8_t* p = exact(*n); hx_unhex(hex, p); return p; }
 /* 0 none, 1 scalar8, 2/4/8 scalar of that many bytes, 100 bytes, 102/104/108 element arrays */
 static int kind_of(unsigned dt) {
@@ -55,7 +55,7 @@ int hx_vss(int argc, char** argv, unsigned offset) {
         size_t cap = ux(argv[2]);
         unsigned mode = Avtp_Vss_GetAddrMode((Avtp_Vss_t*)pdu);
         VssPath_t p; memset(&p, 0, sizeof p);
-        char* dst = exact(cap); memset(dst, 0xEE, cap ? cap : 1);
+        char* dst = exact(cap); memset(dst, 0xEE, cap);
         if (mode == VSS_INTEROP_MODE) p.vss_interop_path.path = dst;
         Avtp_Vss_GetVssPath((Avtp_Vss_t*)pdu, &p);
         if (mode == VSS_STATIC_ID_MODE) printf("P static %x\n", (unsigned)p.vss_static_id_path);
@@ -83,7 +83,7 @@ int hx_vss(int argc, char** argv, unsigned offset) {
         int k = kind_of((unsigned)Avtp_Vss_GetDatatype((Avtp_Vss_t*)pdu));
         VssData_t d; memset(&d, 0, sizeof d); anyarr_t arr; arr.data_length = 0xEEEE; arr.data = 0; size_t cap = 0;
         int isnull = !strcmp(argv[2], "-");
-        if (k >= 100) { if (!isnull) { cap = ux(argv[2]); arr.data = exact(cap); memset(arr.data, 0xEE, cap ? cap : 1); } d.data_string = (VssDataString_t*)&arr; }
+        if (k >= 100) { if (!isnull) { cap = ux(argv[2]); arr.data = exact(cap); memset(arr.data, 0xEE, cap); } d.data_string = (VssDataString_t*)&arr; }
         Avtp_Vss_GetVssData((Avtp_Vss_t*)pdu, &d);
         if (k == 0) puts("D none");
         else if (k < 100) { uint64_t v = d.data_uint64; if (k < 8) v &= ((1ULL << (8 * k)) - 1); printf("D scalar %llx\n", (unsigned long long)v); }
@@ -130,7 +130,7 @@ int hx_vss(int argc, char** argv, unsigned offset) {
         if (strcmp(tmp, ".")) for (char* t = strtok(tmp, ","); t && n < num; t = strtok(0, ",")) {
             objs[n].data_length = 0xEEEE;
             if (!strcmp(t, "-")) { objs[n].data = 0; caps[n] = 0; }
-            else { caps[n] = ux(t); objs[n].data = exact(caps[n]); memset(objs[n].data, 0xEE, caps[n] ? caps[n] : 1); }
+            else { caps[n] = ux(t); objs[n].data = exact(caps[n]); memset(objs[n].data, 0xEE, caps[n]); }
             ptrs[n] = &objs[n]; n++;
         }
         Avtp_Vss_DeserializeStringArray(&arr, ptrs, (uint16_t)num);
